@@ -78,3 +78,47 @@ Example C01_premises_nonvacuous :
     (embed (JObj [("a", JNum "1"); ("b", JObj [("c", JArr [JStr "x"; JStr "y"])])]))
     [(["b"; "c"], "1"); (["b"], "c"); ([], "a")] [JStr "s1"; JStr "s2"; JStr "s3"] = Some t' /\ aheight t' <= 129.
 Proof. eexists. split; [vm_compute; reflexivity|vm_compute; repeat constructor]. Qed.
+
+(* The path component: "the holder is told one path per disclosable claim, equal to the path the issuer was
+   given, together with that claim's name and value". addrs are the addresses the issuer's paths resolve to
+   in the claims (T1r.jresolve); render writes an address the way the holder does (member names verbatim,
+   indices in decimal). The reported list is a permutation of the issuer's disclosures (name and value are
+   components of each disclosure), and the i-th disclosure is reported with the rendered address of the
+   i-th path. C01_rendered_path_is_issuer_path: when index tokens are written canonically that string is the
+   issuer's token list joined by '/'. *)
+Require Import SDJ.T1r SDJ.T1s.
+Theorem C01_encode_then_holder_verify_paths :
+  forall (E : issue_env) (O : oracles),
+  (forall x y, ie_hash E x = ie_hash E y -> x = y) ->
+  (forall ps, o_dec O (ie_enc E ps) = DJson (JArr ps)) ->
+  o_hash O SHA256 = ie_hash E ->
+  (forall h p j, ie_sign E h p = Val j -> o_jwt O j = Val (h, p)) ->
+  (forall h p, exists j, ie_sign E h p = Val j /\ Split.contains Split.tilde j = false) ->
+  (forall ps, Split.contains Split.tilde (ie_enc E ps) = false) ->
+  (forall xs, Permutation.Permutation (ie_perm E xs) xs) ->
+  forall (ckvs : list (string * json)) (paths : list string) tks (addrs : list addr) (t' : atree)
+         (max_decoys : option Z) (cnf : option json) (header : json),
+  jwf (JObj ckvs) -> ~ In "_sd_alg" (map fst ckvs) -> ~ In "cnf" (map fst ckvs) ->
+  NoDup (ie_salts E) -> paths <> [] -> split_paths paths = Some tks ->
+  Forall2 (fun p a => jresolve Issuer2.parse_index Issuer2.parse_usize (fst p) (snd p) (JObj ckvs) = Some a) tks addrs ->
+  ordered addrs ->
+  T1j.mark_fold (ie_hash E) (ie_enc E) Issuer2.parse_index Issuer2.parse_usize (ie_pos E) (embed (JObj ckvs)) tks (ie_salts E) = Some t' ->
+  NoDup (decoys_used E max_decoys) ->
+  (forall g, In g (decoys_used E max_decoys) -> ~ In g (alldigs (ie_hash E) (ie_enc E) t')) ->
+  (match cnf with Some c => jwf c /\ S (aheight (embed c)) <= 129 | None => True end) ->
+  aheight t' <= 129 ->
+  exists token payload ds ps,
+    issue E (JObj ckvs) paths max_decoys cnf header = Val (token, payload, ds) /\
+    holder_verify O token = Val (header, match cnf with Some c => JObj (obj_insert "cnf" c ckvs) | None => JObj ckvs end, ps) /\
+    Permutation.Permutation (map snd ps) ds /\
+    Forall2 (fun d a => In (render Wire.show_nat a, d) ps) ds addrs.
+Proof. exact encode_then_holder_verify_paths. Qed.
+Print Assumptions C01_encode_then_holder_verify_paths.
+
+Theorem C01_rendered_path_is_issuer_path :
+  forall (show_nat : nat -> string) (parse_index parse_usize : string -> option nat) toks key j a,
+  jresolve parse_index parse_usize toks key j = Some a ->
+  Forall (canonical show_nat parse_index parse_usize) (toks ++ [key]) ->
+  render show_nat a = join_tokens (toks ++ [key]).
+Proof. exact render_tokens. Qed.
+Print Assumptions C01_rendered_path_is_issuer_path.
